@@ -643,7 +643,8 @@ def r7(ctx):
         return
     f = prog.inlined(f0)
     want = {"all": "All", "any": "Any", "not": "Not", "matches": "Matches"}
-    pushes = [c for c in f.calls if c.name == "push" and c.bb in f.live_blocks and len(c.args) == 2 and "Rule<" in f.locals[c.args[1][1][0]] if c.args[1][0] != "k"]
+    pushes = [c for c in f.calls if c.name == "push" and c.bb in f.live_blocks and len(c.args) == 2 and c.args[1][0] != "k" and "Rule<" in f.locals[c.args[1][1][0]] and
+              any(o.kind == "param" and o.ref == 2 for o in deep_roots(prog, f, c.args[0], TRANSPARENT))]   # pushes onto the output parameter, not onto a helper's local vector
     ctx.floor("R7", "rules pushed by deserialze_composite_rule", len(pushes), 4)
     tests = {}
     for bi in sorted(f.live_blocks):
